@@ -100,6 +100,20 @@ static int mu_try_acquire_after_timeout_or_cancel (nsync_mu *mu, lock_type *l_ty
 		mu->waiters = nsync_remove_from_mu_queue_ (mu->waiters, &w->nw.q);
 		ATM_STORE (&w->nw.waiting, 0);
 
+		/* old_word is about to be stored back, so it must be brought
+		   up to date:  the acquiring CAS above cleared
+		   MU_WRITER_WAITING (possibly set by this very thread while
+		   it was spinning), and if *w was the last waiter the bits
+		   that describe the queue must go too.  Otherwise a reader
+		   that releases with MU_ALL_FALSE set leaves them on a free
+		   mutex, and a new reader sleeps behind a writer that does
+		   not exist.  */
+		old_word &= ~MU_WCLEAR_ON_ACQUIRE;
+		if (nsync_dll_is_empty_ (mu->waiters)) {
+			old_word &= ~(MU_WAITING | MU_WRITER_WAITING |
+				      MU_CONDITION | MU_ALL_FALSE);
+		}
+
 		/* Release spinlock but keep desired lock type. */
 		ATM_STORE_REL (&mu->word, old_word+l_type->add_to_acquire); /* release store */
 		success = 1;
